@@ -33,6 +33,22 @@ def _cache(ctx, key: str, compute):
     return store[key]
 
 
+def _near(ctx, modname: str) -> set[str]:
+    """The module and the modules of the package it imports names from: private helpers get moved into sibling modules
+    (`_tag_fixups.py`) and imported back; they still belong to the module's machinery."""
+    def find():
+        out = {modname}
+        m = ctx.repo.modules.get(modname)
+        if m is not None:
+            for st in ast.walk(m.tree):
+                if isinstance(st, ast.ImportFrom) and st.module:
+                    base = st.module if st.level == 0 else ".".join(modname.split(".")[:-st.level] + [st.module])
+                    if base in ctx.repo.modules and base.startswith("flowmark."):
+                        out.add(base)
+        return tuple(sorted(out))
+    return set(_cache(ctx, "near:" + modname, find))
+
+
 def _module_funcs(ctx, modname: str) -> list[FuncInfo]:
     return [f for f in ctx.repo.functions.values() if f.module.name == modname and not isinstance(f.node, ast.Lambda)]
 
@@ -215,7 +231,7 @@ def closing_tag_predicate(ctx) -> FuncInfo | None:
 
         folder, recs, _t = _records(ctx)
         cands = []
-        for f in _module_funcs(ctx, TH):
+        for f in [g for mn in sorted(_near(ctx, TH)) for g in _module_funcs(ctx, mn)]:
             if f.parent is not None or len(f.params) != 1:
                 continue
             got = _affix_tests(ctx, folder, f, depth=3)
@@ -483,7 +499,7 @@ def multiline_tag_fix(ctx) -> FuncInfo:
         public = {"normalize_adjacent_tags", "denormalize_adjacent_tags"}
         cands = []
         for f in _callees(ctx, w, 2):
-            if f.module.name != TH or f.name in public or len(f.params) != 1:
+            if f.module.name not in _near(ctx, TH) or f.name in public or len(f.params) != 1:
                 continue
             for c in walk_no_nested(f.node):
                 if isinstance(c, ast.Call) and isinstance(c.func, ast.Attribute) and c.func.attr in ("search", "match", "finditer") \
@@ -504,7 +520,7 @@ def closing_tag_spacing_fix(ctx) -> FuncInfo:
         pred = closing_tag_predicate(ctx)
         cands = []
         for f in _callees(ctx, w, 1):
-            if f.module.name != TH or len(f.params) != 1 or f is pred:
+            if f.module.name not in _near(ctx, TH) or len(f.params) != 1 or f is pred:
                 continue
             if pred is not None and pred in _callees(ctx, f, 1):
                 cands.append(f)
@@ -527,7 +543,7 @@ def tag_only_line_predicate(ctx) -> FuncInfo:
         pp = ctx.repo.func(f"{TH}:preprocess_tag_block_spacing")
         cands = []
         for f in _callees(ctx, pp, 1):
-            if f.module.name != TH or len(f.params) != 1:
+            if f.module.name not in _near(ctx, TH) or len(f.params) != 1:
                 continue
             got = _affix_tests(ctx, folder, f)
             if got["startswith"] & opens and got["endswith"] & closes:
